@@ -478,7 +478,7 @@ fn c12_strategy() -> impl Strategy<Value = EngCase> {
 fn c12_directed(ctx: &WorkerCtx) -> Result<(), Fail> {
     let mut st = ctx.stats.borrow_mut();
     let mut g = Expand(ctx.wseed(1212));
-    let tries = ctx.tier.pick(60_000u64, 1_500_000);
+    let tries = ctx.tier.pick(300_000u64, 3_000_000);
     let mut hits = 0u64;
     for _ in 0..tries {
         // black king on an edge, white king close, one or two white minors, one black unit
@@ -549,6 +549,73 @@ fn c12_directed(ctx: &WorkerCtx) -> Result<(), Fail> {
         }
     }
     st.class_n("directed: mate by a capture that leaves only kings and minor pieces", hits);
+    // (a') underpromotion mates: a pawn on the seventh whose promotion to a KNIGHT mates (the
+    // enemy king a knight's jump from the promotion square, hemmed in by its own men)
+    let mut under = 0u64;
+    for _ in 0..ctx.tier.pick(40_000u64, 1_000_000) {
+        let mut p = Pos::empty();
+        p.full = 1;
+        p.turn = C::White;
+        let f = g.below(8) as i8;
+        let Some(pawn) = refchess::mk(f, 6) else { continue };
+        p.sq[pawn as usize] = Some((C::White, P::Pawn));
+        // promotion square: straight ahead (empty) or a capture on a neighbouring file
+        let cap = g.below(3) == 0;
+        let pf = if cap { f + if g.below(2) == 0 { 1 } else { -1 } } else { f };
+        let Some(promo) = refchess::mk(pf, 7) else { continue };
+        if cap {
+            p.sq[promo as usize] = Some((C::Black, [P::Rook, P::Bishop, P::Knight, P::Queen][g.below(4) as usize]));
+        }
+        let (df, dr) = refchess::KN[g.below(8) as usize];
+        let Some(bk) = refchess::mk(pf + df, 7 + dr) else { continue };
+        if p.sq[bk as usize].is_some() {
+            continue;
+        }
+        p.sq[bk as usize] = Some((C::Black, P::King));
+        for (nf, nr) in refchess::KG {
+            if let Some(s) = refchess::mk(refchess::fl(bk) + nf, refchess::rk(bk) + nr) {
+                if p.sq[s as usize].is_none() && g.below(5) < 3 {
+                    let k = [P::Pawn, P::Knight, P::Bishop, P::Rook, P::Pawn][g.below(5) as usize];
+                    if k != P::Pawn || (1..=6).contains(&(s / 8)) {
+                        p.sq[s as usize] = Some((C::Black, k));
+                    }
+                }
+            }
+        }
+        let wk = g.below(24) as u8;
+        if p.sq[wk as usize].is_some() {
+            continue;
+        }
+        p.sq[wk as usize] = Some((C::White, P::King));
+        for _ in 0..g.below(3) {
+            let s = g.below(64) as u8;
+            if p.sq[s as usize].is_none() {
+                p.sq[s as usize] = Some((C::White, [P::Bishop, P::Rook, P::Queen, P::Knight][g.below(4) as usize]));
+                if !p.plausible() {
+                    p.sq[s as usize] = None;
+                }
+            }
+        }
+        if !p.plausible() {
+            continue;
+        }
+        let legal = p.legal();
+        let mates = mating_moves(&p, &legal);
+        if !mates.iter().any(|m| m.promo == Some(P::Knight)) {
+            continue;
+        }
+        let only_under = mates.iter().all(|m| matches!(m.promo, Some(P::Knight) | Some(P::Bishop) | Some(P::Rook)));
+        for q in [p.clone(), p.mirror()] {
+            let sub = Setup { board: to_board(&q).map_err(|d| Fail { case: json!({"fen": q.fen()}), detail: d })?, legal: q.legal(), pos: q.clone(), tf: ThreeFold::new() };
+            let case = fen_case(&q);
+            guarded(|| c12_eval(sub, false, &mut st)).unwrap_or_else(Err).map_err(|d| Fail { case: eng_json(&case), detail: d })?;
+            under += 1;
+        }
+        if only_under {
+            st.class("directed: the only mating moves are underpromotions");
+        }
+    }
+    st.class_n("directed: knight-promotion mate available", under);
     // (b') many-move positions whose every mating move comes late (index >= 120) in the order in
     // which the implementation's own iterator hands out moves (captures first, then the rest).
     // Found by a constructive search: start from a bare skeleton and keep adding white queens
